@@ -429,7 +429,11 @@ class Exec:
                 self.copy_uid = new.uid
                 self.copy_where = where
             elif k == "reopen":
-                b1, b2 = self.close_all()
+                try:
+                    b1, b2 = self.close_all()
+                except Exception as err:  # pylint: disable=broad-except
+                    self.close_error = (type(err).__name__, repr(err), traceback.format_exc()[-500:])
+                    raise
                 self.ws = self.Workspace(io.BytesIO(b1))
                 if b2 is not None:
                     self.ws2 = self.Workspace(io.BytesIO(b2))
@@ -584,8 +588,7 @@ def compare_view(exp, got, obs_name, removed_names=()):
     for nm in sorted(set(exp) - set(got)):
         out.append((C, f"{obs_name}:hole-missing", {"hole": nm}))
     for nm in sorted(set(got) - set(exp)):
-        why = "removed" if nm in removed_names else "unknown"
-        out.append((C, f"{obs_name}:hole-listed-but-not-live:{why}", {"hole": nm}))
+        out.append((C, f"{obs_name}:hole-listed-but-not-live", {"hole": nm, "removed-by-the-last-operation": nm in removed_names}))
     for nm in sorted(set(exp) & set(got)):
         e, g = exp[nm], got[nm]
         h = e["handle"]
@@ -803,8 +806,9 @@ def raw_check(node, before_ids=None):
     before_ids = before_ids or {}
 
     def why(uid):
-        k = before_ids.get(uid)
-        return f"removed-{k[0]}" if k else "unknown-id"
+        # (kept out of the signature: whether the id belonged to something removed one step
+        # or many steps ago is not a property of the defect)
+        return "no-such-live-entity"
 
     if node is None:
         return [(A, "group-node-missing", {})], None, {}
@@ -1077,6 +1081,19 @@ SCENES = {
         ["add", "B", "x", "H", 1, 0, "loc"],
         ["add", "B", "y", "H", 1, 0, "loc"],
     ],
+    "S6": [
+        ["add_hole", "A", 1],
+        ["add_hole", "B", 1],
+        ["add_hole", "C", 1],
+        ["add", "A", "x", "G", 0, 0, "loc"],
+        ["add", "B", "x", "G", 2, 0, "loc"],
+        ["add", "C", "x", "G", 1, 0, "loc"],
+    ],
+    "S5": [
+        ["add_hole", "A", 1],
+        ["add_hole", "B", 1],
+        ["add", "A", "x", "G", 2, 0, "loc"],
+    ],
 }
 for _k in list(SCENES):
     SCENES[_k + "r"] = SCENES[_k] + [["reopen"]]
@@ -1115,8 +1132,7 @@ def template(history):
     ex = Exec(history.get("cfg"))
     scene = SCENES[history.get("scene", "S0")]
     ex.run(scene)
-    if any(r != "ok" for r in ex.results):
-        raise core.HarnessError(f"scene {history.get('scene')} is not accepted by the library: {ex.results} {getattr(ex, 'last_error', '')}")
+    ex.scene_refused = [[op, r] for op, r in zip(scene, ex.results) if r != "ok"]
     ex.n_scene = len(scene)
     return ex
 
@@ -1127,6 +1143,14 @@ HOLE_OPS = ("add", "update", "resurvey", "rename_hole", "rename_data", "rm_data"
 def run_history(ex, history, alpha):
     """Run the ops of `history` on `ex` (already holding the scene), observe and judge."""
     ops = history["ops"]
+    if getattr(ex, "scene_refused", None):
+        # the seeding scene is plain documented use (add_data with depth / from-to on fresh
+        # holes): a refusal there means written values cannot be read back at all
+        op, res = ex.scene_refused[0]
+        out = observe_and_judge(ex, dict(history, ops=[]), alpha, None, None, _copy.deepcopy(ex.model), ex.cache_shape())
+        out["viol"] = [("hole-reads-back", f"scene-operation-refused:{op[0]}", {"op": op, "result": res, "error": getattr(ex, "last_error", "")[-600:]})] + out["viol"]
+        out["succ"] = []
+        return out
     ex.run(ops[:-1])
     before = None
     target_uid = None
@@ -1139,6 +1163,10 @@ def run_history(ex, history, alpha):
             target_uid = ex.hole_uid[last[1]]
     pre_model = _copy.deepcopy(ex.model)
     ex.run(ops[-1:])
+    if getattr(ex, "close_error", None):
+        # closing failed inside a re-open: there is no file to judge
+        name, rep, tb = ex.close_error
+        return _result(ex, history, alpha, [("file-content", f"close-raises:{name}", {"error": rep, "trace": tb})], None, {}, None, {}, True)
     if ops and ops[-1][0] in ("add_hole", "copy_hole"):
         target_uid = ex.hole_uid.get(ops[-1][1] if ops[-1][0] == "add_hole" else ops[-1][2])
     caches = ex.cache_shape()
@@ -1341,6 +1369,16 @@ def _model_shape(m):
     }
 
 
+def _successors(m, alpha, vl, refused, dead):
+    if refused or dead:
+        return []
+    succ = enabled(m, alpha)
+    if any(c == "hole-reads-back" and (w.startswith("live:") or w.startswith("copy-live:")) for c, w, _ in vl):
+        # the live objects no longer show the state: such a state is continued only through a re-open
+        succ = [op for op in succ if op[0] == "reopen"]
+    return succ
+
+
 def _result(ex, history, alpha, viol, node, caches, rview, tstats, dead=False):
     m = ex.model
     lay = _symbolic(ex, node, rview)
@@ -1358,9 +1396,9 @@ def _result(ex, history, alpha, viol, node, caches, rview, tstats, dead=False):
         "key": core.digest([_model_shape(m), lay, caches, ex.cfg["version"], refused]),
         "model_key": core.digest(_model_shape(m)),
         "viol": vl,
-        "succ": enabled(m, alpha) if not (refused or dead) else [],
-        "outcome": core.digest([last, ex.results[-1] if ex.results else "-", sorted((c, w) for c, w, _ in vl), sorted(tstats.items()),
-                                 {h: sorted(hole["data"]) for h, hole in m["holes"].items()}]),
+        "succ": _successors(m, alpha, vl, refused, dead),
+        "outcome": core.jdump([last, ex.results[-1] if ex.results else "-", sorted(f"{c}|{w}" for c, w, _ in vl), sorted(tstats.items()),
+                               sorted(len(hole["data"]) for hole in m["holes"].values())]),
         "refused": refused,
         "last_error": getattr(ex, "last_error", None) if refused else None,
     }
